@@ -420,8 +420,13 @@ func monLimit(npay int) {
 // ---------------------------------------------------------------- executor
 
 func reset() {
-	pool = reassembly.NewStreamPool(factory{})
-	asm = reassembly.NewAssembler(pool)
+	// A fresh pool allocates 1024 connection objects on first use; when the previous case left the
+	// pool and the page cache empty (checked through the hooks) the objects are reused.
+	if pool == nil || dead || pool.VerifConnCount() != 0 || asm.VerifPagesUsed() != 0 {
+		pool = reassembly.NewStreamPool(factory{})
+		asm = reassembly.NewAssembler(pool)
+	}
+	asm.MaxBufferedPagesPerConnection, asm.MaxBufferedPagesTotal = 0, 0
 	streams = nil
 	events = nil
 	dead = false
